@@ -98,6 +98,12 @@ mutant("m14h", "C14", "asmjit/x86/x86assembler.cpp", "    if (ASMJIT_UNLIKELY(!_
 mutant("m14i", "C14", "asmjit/core/emitter.cpp", "      reset_state();\n      return report_error(make_error(Error::kInvalidArgument));", "      return make_error(Error::kInvalidArgument);", "revert fix: emit_op_array with more than six operands bypasses the handler and keeps the one-shot state")
 mutant("m18h", "C18", "asmjit/support/arenavector.h", "    ASMJIT_PROPAGATE(reserve_additional(arena));\n\n    memcpy(static_cast<void*>(static_cast<T*>(_data) + _size),\n           static_cast<const void*>(item_copy),", "    ASMJIT_PROPAGATE(reserve_additional(arena));\n\n    memcpy(static_cast<void*>(static_cast<T*>(_data) + _size),\n           static_cast<const void*>(&item),", "revert fix: append() reads its argument after the storage was reallocated")
 mutant("m19f", "C19", "asmjit/core/compiler.cpp", "    if (local_const_pool) {\n      compiler.add_after(local_const_pool, compiler.last_node());", "    if (local_const_pool && false) {\n      compiler.add_after(local_const_pool, compiler.last_node());", "revert fix: a local constant pool pending at finalize() is not emitted")
+# ---- reverted repairs of round 8 ------------------------------------------------------------------------------------
+mutant("m14j", "C14", "asmjit/arm/a64assembler.cpp", "        if (op_data.n != 1 && q == 0 && sz == 3)\n          goto InvalidInstruction;\n", "", "revert fix: ld2/ld3/ld4/st2/st3/st4 accept the reserved .1d arrangement")
+mutant("m14k", "C14", "asmjit/arm/a64assembler.cpp", "        if (m.index_type() != RegType::kGp64)\n          goto InvalidAddress;\n", "", "revert fix: structure loads/stores accept a W post-index register")
+mutant("m14l", "C14", "asmjit/arm/a64assembler.cpp", "        uint64_t cond = o2.as<Imm>().value_as<uint64_t>();\n        if (cond - 2u >= 0xEu)", "        uint64_t cond = o2.as<Imm>().value_as<uint64_t>();\n        if (cond - 2u > 0xEu)", "revert fix: cinc/cinv/cneg accept condition code 16")
+mutant("m14m", "C14", "asmjit/x86/x86instapi.cpp", "if (ASMJIT_UNLIKELY(base_id >= 32 || !Support::bit_test(vd->allowed_reg_mask[size_t(base_type)], base_id))) {", "if (ASMJIT_UNLIKELY(base_id >= 32)) {", "revert fix: x86 validator accepts a memory base register id outside the register file")
+mutant("m14n", "C14", "asmjit/x86/x86instapi.cpp", "            if (mode == InstDB::Mode::kX86) {\n              // 32-bit mode: Make sure that the address is either `int32_t` or `uint32_t`.\n              if (!Support::is_uint_n<32>(offset)) {", "            if (mode == InstDB::Mode::kX86) {\n              // 32-bit mode: Make sure that the address is either `int32_t` or `uint32_t`.\n              if (!Support::is_uint_n<32>(offset) && index_type != RegType::kNone) {", "x86-32 validator accepts a 64-bit absolute address without index")
 
 def run(cmd, env=None, timeout=3600):
     e = dict(os.environ); e.update(env or {})
